@@ -45,7 +45,7 @@ def compare_rows(rows, ctx, xy_limit):
 def run(ctx, replay=None, selftest=False):
     core.sany('ZernikeIndex')
     quick = ctx.tier == 'quick'
-    J, B = (20000, 500) if quick else (100000, 1000)
+    J, B = (60000, 1000) if quick else (100000, 1000)
     xy_limit = 3000 if quick else 20000          # xy_j_to_mn walks its table: quadratic in the index
     if replay:
         rows = json.load(open(replay))['record']['rows']
@@ -58,7 +58,15 @@ def run(ctx, replay=None, selftest=False):
     js = sorted(row[0] for row in rows)
     if js != list(range(1, J + 1)):
         raise core.Machinery('exported table does not cover 1..%d exactly (%d rows)' % (J, len(js)))
+    rows.sort()
     compare_rows(rows, ctx, xy_limit)
+    # the maps must be functions of the index alone: a second pass in DESCENDING order (whatever the library memoised
+    # during the ascending pass is now in place) must give the same table
+    n_first = len(ctx.fails)
+    compare_rows(rows[::-1], ctx, xy_limit)
+    for k in range(n_first, len(ctx.fails)):
+        sig, det, rec = ctx.fails[k]
+        ctx.fails[k] = (sig + ':second-pass', det, rec)
     ctx.distinct_keys.update(range(1, J + 1))
     if selftest:
         bad = [list(rows[77])]
